@@ -62,7 +62,7 @@ def history_case(draw, max_steps=40000):
         Ttot = min(math.exp(draw(st.floats(math.log(0.05), math.log(1.0)))), budget * 4 * min(a, b) * tau)
         nus = [a * (b / a) ** (k / (K - 1.0)) for k in range(K)]
         Ts = [Ttot / K] * K
-    return dict(n=n, nus=nus, Ts=Ts, g=g, log=draw(st.booleans()), as_func=as_func,
+    return dict(n=n, nus=nus, Ts=Ts, g=g, log=draw(st.booleans()), as_func=as_func, clock=draw(st.sampled_from(['restart', 'restart', 'running'])),
                 theta0=draw(st.floats(0.1, 100.0)), beta=draw(st.sampled_from([1.0, 1.0, 0.5, 3.0])),
                 nu_anc=draw(st.sampled_from([1.0, 1.0, 0.5, 2.0])), lib=draw(st.booleans()))
 
@@ -99,11 +99,17 @@ def model_func(c):
     def f(params, ns, pts):
         xx = Numerics.default_grid(pts)
         phi = PhiManip.phi_1D(xx, nu=c['nu_anc'], theta0=c['theta0'], beta=c['beta'])
+        t0 = 0.0
         for nu, T in zip(nus, Ts):
             nuarg = (lambda t, v=nu: v) if c['as_func'] else nu
-            phi = Integration.one_pop(phi, xx, T, nu=nuarg, theta0=c['theta0'], beta=c['beta'])
+            if c.get('clock') == 'running':
+                # one clock for the whole history: each epoch runs from initial_t = (end of the previous one) to t0 + T
+                phi = Integration.one_pop(phi, xx, t0 + T, nu=nuarg, theta0=c['theta0'], beta=c['beta'], initial_t=t0)
+                t0 += T
+            else:
+                phi = Integration.one_pop(phi, xx, T, nu=nuarg, theta0=c['theta0'], beta=c['beta'])
         return dadi.Spectrum.from_phi(phi, ns, (xx,))
-    return f, 'composed'
+    return f, 'composed' + (' (running clock)' if c.get('clock') == 'running' else '')
 
 
 def run_model(c, pts_l, tau):
